@@ -11,6 +11,7 @@ import z3
 
 from .core import (
     Budget,
+    budget_ms,
     ExcObj,
     Obj,
     PathCtx,
@@ -116,6 +117,9 @@ def _model_to_text(m, limit=4000):
 
 def discharge(pc, formula, timeout_ms=10000):
     """Check pc => formula. Returns (status, seconds, model_text, backend)."""
+    from pyvc.core import budget_ms
+
+    timeout_ms = budget_ms(timeout_ms)
     s = z3.Solver()
     s.set("timeout", timeout_ms)
     for f in pc:
@@ -239,18 +243,27 @@ def run_contract(name, fn, src_root=None, max_paths=200000, time_limit_s=900, ti
                 "time_s": 0.0,
                 "detail": failed[0] if failed else None,
             }
-            if failed and model_hook is not None:
-                # an input on which this path is taken: any model of the path condition
-                try:
-                    sv = z3.Solver()
-                    sv.set("timeout", timeout_ms)
-                    for f in ctx.pc:
-                        sv.add(f)
-                    if sv.check() == z3.sat:
-                        rec["model"] = _model_to_text(sv.model())
-                        rec["witness"] = model_hook(h, ctx, sv.model(), clause, {})
-                except Exception as e:
-                    rec["witness_error"] = repr(e)
+            if failed:
+                # a structural failure counts only on a path that some input takes: a model of the path condition is that
+                # input; a path whose feasibility the solver left open at a branch is not evidence of anything
+                sv = z3.Solver()
+                sv.set("timeout", budget_ms(timeout_ms))
+                for f in ctx.pc:
+                    sv.add(f)
+                t1 = time.time()
+                verdict = sv.check()
+                res.solver_s += time.time() - t1
+                if verdict == z3.unsat:
+                    rec["status"], rec["backend"], rec["detail"] = "discharged", "z3", "path infeasible"
+                elif verdict != z3.sat:
+                    rec["status"], rec["backend"], rec["reason"] = "undecided", "z3", "path feasibility: " + sv.reason_unknown()
+                else:
+                    rec["model"] = _model_to_text(sv.model())
+                    if model_hook is not None:
+                        try:
+                            rec["witness"] = model_hook(h, ctx, sv.model(), clause, {})
+                        except Exception as e:
+                            rec["witness_error"] = repr(e)
             res.obligations.append(rec)
         for clause, formula, meta in h.obligations:
             status, dt, model, backend = discharge(ctx.pc, formula, timeout_ms)
